@@ -56,7 +56,7 @@ impl PatchIndexEntry {
     /// Returns the entry and the number of bytes consumed.
     pub fn parse(data: &[u8], key_size: u8) -> Option<Self> {
         let size = entry_size(key_size);
-        if data.len() < size {
+        if key_size > 16 || data.len() < size {
             return None;
         }
 
